@@ -54,7 +54,7 @@ class C16(Prop):
                "aioswitcher.api:SwitcherType2Api._get_breeze_state", "aioswitcher.api.remotes:SwitcherBreezeRemote.build_command",
                "aioswitcher.api.remotes:SwitcherBreezeRemote.build_swing_command"]
     min_evaluations = {"quick": 20_000, "thorough": 250_000}
-    budget_s = {"quick": 60, "thorough": 900}
+    budget_s = {"quick": 300, "thorough": 900}
 
     def selftest(self):
         crc_and_frames()
